@@ -21,6 +21,7 @@ RULE = (
     "loaded object has a chart or the source has a duplicate/lower-case/key-only/multi-value parameter; distinct = "
     "distinct case JSON"
 )
+RULE += " " + "Round 6: part 'charts-over-64KiB' - SM and SSC charts whose note data is 65528..131081 characters long, with or without an escaped backslash / colon / comment opener / semicolon in a header field or in the note data."
 ASSUMPTIONS = ["msdparser.parse_msd is the trusted tokenizer", "values inside msdparser's escaping gap are outside the domain"]
 
 
